@@ -3,7 +3,11 @@ pub mod cluster;
 pub mod data;
 pub mod driver;
 pub mod kmeans;
+pub mod linear;
 pub mod out;
+pub mod preprocess;
+pub mod reduction;
+pub mod svm;
 pub mod tree_bayes;
 
 use driver::{child_entry, judge, Case};
@@ -41,6 +45,10 @@ subs![
     ("kmeans", kmeans, 64, 640, 16),
     ("cluster", cluster, 120, 1500, 8),
     ("tree_bayes", tree_bayes, 240, 3000, 8),
+    ("svm", svm, 80, 1000, 8),
+    ("linear", linear, 120, 1500, 8),
+    ("reduction", reduction, 120, 1500, 8),
+    ("preprocess", preprocess, 160, 2000, 8),
 ];
 
 pub fn property() -> Property {
